@@ -36,14 +36,18 @@ def readPacketsM : List Nat → FileM (List Bytes)
     let ps ← readPacketsM r
     pure (p :: ps)
 
-/-- `OggPage(fileobj)`: `tell`, `read(27)`, the checks, `read(segments)`, one `read` per packet.
+/-- `OggPage(fileobj)`: `tell`, `read(27)`, the checks (a wrong capture pattern: one more `tell` for the
+message), `read(segments)`, one `read` per packet.
 Returns the page and `page.offset`; EOFError is `.eof`, ogg.error `.mutagen`. -/
 def readPageM : FileM (Page × Nat) := do
   let off ← ftell
   let hdr ← fread 27
   if hdr.isEmpty then raise .eof
   else if hdr.length < 27 then raise .mutagen
-  else if hdr.take 4 ≠ [0x4F, 0x67, 0x67, 0x53] then raise .mutagen
+  else if hdr.take 4 ≠ [0x4F, 0x67, 0x67, 0x53] then do
+    -- the message has the position: `fileobj.tell() - 27`
+    let _ ← ftell
+    raise .mutagen
   else
     let version := (hdr.drop 4).head!.toNat
     if version ≠ 0 then raise .mutagen
